@@ -141,6 +141,7 @@ fn do_name(t: &str) -> String {
                     .filter_map(|c| match c {
                         std::path::Component::Normal(n) => Some(n.to_string_lossy().to_string()),
                         std::path::Component::ParentDir => Some("..".to_string()),
+                        std::path::Component::CurDir => Some(".".to_string()),
                         _ => None,
                     })
                     .collect();
